@@ -319,7 +319,9 @@ _poll_add_(struct qb_loop *l,
 		*pe_pt = pe;
 		return 0;
 	} else {
-		pe->state = QB_POLL_ENTRY_EMPTY;
+		/* nothing is registered: leave no descriptor number or
+		 * check value behind that a later lookup could match */
+		_poll_entry_empty_(pe);
 		return res;
 	}
 }
